@@ -402,8 +402,8 @@ Section Proofs.
   Lemma process_dep_incompat first cur st d st' :
     process_dep first cur mgt st d = (st', Stop EIncompat) ->
     (exists k, length (reqs_of (s_reqs st) k) < length (reqs_of (s_reqs st') k))%nat
-    \/ (exists e, is_excluded (n_excl cur) (dep_name d) = Err e)
-    \/ (exists e, find_match (dep_l first st d) = Err e).
+    \/ is_excluded (n_excl cur) (dep_name d) = Err EIncompat
+    \/ find_match (dep_l first st d) = Err EIncompat.
   Proof.
     unfold MavenRes.process_dep.
     fold (dep_name d). fold (dep_k d). fold (dep_dvk first d). fold (dep_st1 first st d).
@@ -418,8 +418,9 @@ Section Proofs.
           apply prefix_length in E1. unfold dep_l. lia.
         * destruct (v_registries m); [intros H; discriminate|].
           destruct (memb vkey_dec _ _); intros H; discriminate.
-      + intros _. right. right. eauto.
-    - intros _. right. left. eauto.
+      + destruct (e =? ENoMatch); [intros H; discriminate|].
+        intros H; inversion H; subst. right. right. reflexivity.
+    - intros H; inversion H; subst. right. left. reflexivity.
   Qed.
 
   Lemma process_deps_reqs first cur : forall ds st st' f,
@@ -1298,6 +1299,117 @@ Section Proofs.
     intros X Fm. unfold MavenRes.process_dep.
     fold (dep_name d). fold (dep_k d). fold (dep_dvk mgt first d). fold (dep_st1 mgt first st d).
     fold (dep_l mgt first st d). rewrite X, Fm. reflexivity.
+  Qed.
+
+  (* errors a client cannot produce: errIncompatible is private to the resolver *)
+  Definition client_sane : Prop :=
+    (forall k e, c_version k = Err e -> e <> EIncompat) /\
+    (forall k e, c_versions k = Err e -> e <> EIncompat) /\
+    (forall k e, c_requirements k = Err e -> e <> EIncompat) /\
+    (forall s e, is_simple s = Err e -> e <> EIncompat).
+
+  Lemma is_excluded_err ex n e : is_excluded ex n = Err e -> e = EOther.
+  Proof.
+    unfold is_excluded. destruct ex as [l|]; [|discriminate].
+    destruct (in_excl b_star_star l); [discriminate|]. destruct (in_excl n l); [discriminate|].
+    destruct (split_on c_colon n []) as [|g [|a [|x y]]]; intros H; inversion H; reflexivity.
+  Qed.
+
+  Lemma fm_open_err i r a e : client_sane -> fm_open i r a = Err e -> e <> EIncompat.
+  Proof.
+    intros [_ [Sv _]]. unfold MavenRes.fm_open. destruct (fm_hidx a); [discriminate|].
+    destruct (c_versions (vk_pk r)) as [vs|e'| |] eqn:V; simpl; try discriminate.
+    - unfold versions_desc. destruct (12 <? N.of_nat (length vs)); simpl; [|discriminate].
+      intros H; inversion H; subst. discriminate.
+    - intros H; inversion H; subst. eapply Sv; eauto.
+  Qed.
+
+  Lemma fm_scan_err : client_sane -> forall reqs i a e, fm_scan i reqs a = Err e -> e <> EIncompat.
+  Proof.
+    intros Sane. induction reqs as [|r reqs IH]; intros i a e; simpl; [discriminate|].
+    destruct (is_simple (vk_ver r)) as [s|e'| |] eqn:S; simpl; try discriminate.
+    - destruct s; [apply IH|].
+      destruct (fm_open i r a) as [a1|e'| |] eqn:O; simpl; try discriminate.
+      + destruct (existsb _ (fm_vers a1)); [apply IH|]. intros H; inversion H; subst. discriminate.
+      + intros H; inversion H; subst. eapply fm_open_err; eauto.
+    - intros H; inversion H; subst. destruct Sane as [_ [_ [_ Ss]]]. eapply Ss; eauto.
+  Qed.
+
+  Lemma fm_pick_err : client_sane -> forall softs i a e, fm_pick i softs a = Err e -> e <> EIncompat.
+  Proof.
+    intros Sane. induction softs as [|s softs IH]; intros i a e; simpl.
+    - destruct (at_hard a i); [destruct (first_listed cmatch a)|]; intros H; inversion H; subst; discriminate.
+    - destruct (if at_hard a i then first_listed cmatch a else None); [discriminate|].
+      destruct (matches_all cmatch (fm_hard a) (vk_ver s)); [|apply IH].
+      destruct Sane as [Sc _]. apply Sc.
+  Qed.
+
+  Lemma find_match_err l e : client_sane -> find_match l = Err e -> e <> EIncompat.
+  Proof.
+    intros Sane. unfold MavenRes.find_match. destruct l as [|r0 rest]; [intros H; inversion H; subst; discriminate|].
+    destruct (existsb _ rest); [intros H; inversion H; subst; discriminate|].
+    destruct (fm_scan 0 (r0 :: rest) (mkFm [] [] None [])) as [a|e'| |] eqn:Sc; simpl; try discriminate.
+    - now apply fm_pick_err.
+    - intros H; inversion H; subst. eapply fm_scan_err; eauto.
+  Qed.
+
+  Definition grows (R R' : reqmap) : Prop := exists k, (length (reqs_of R k) < length (reqs_of R' k))%nat.
+
+  Lemma grows_ext_r R R' R'' : grows R R' -> reqs_extends R' R'' -> grows R R''.
+  Proof. intros [k H] E. exists k. specialize (E k). apply prefix_length in E. lia. Qed.
+  Lemma grows_ext_l R R' R'' : reqs_extends R R' -> grows R' R'' -> grows R R''.
+  Proof. intros E [k H]. exists k. specialize (E k). apply prefix_length in E. lia. Qed.
+
+  Lemma process_deps_incompat mgt first cur : client_sane -> forall ds st st',
+      process_deps first cur mgt st ds = (st', Stop EIncompat) -> grows (s_reqs st) (s_reqs st').
+  Proof.
+    intros Sane. induction ds as [|d ds IH]; intros st st' H; simpl in H; [discriminate|].
+    destruct (process_dep first cur mgt st d) as [st1 f1] eqn:P. destruct f1.
+    - apply process_dep_reqs in P. eapply grows_ext_l; eauto.
+    - inversion H; subst. destruct (process_dep_incompat _ _ _ _ _ _ P) as [G|[X|F]]; auto.
+      + apply is_excluded_err in X. discriminate.
+      + exfalso. eapply find_match_err; eauto.
+  Qed.
+
+  Lemma step_incompat mgt first cur st st' : client_sane ->
+      step first mgt cur st = (st', Stop EIncompat) -> grows (s_reqs st) (s_reqs st').
+  Proof.
+    intros Sane. unfold MavenRes.step. destruct (n_incl cur); [discriminate|].
+    unfold MavenRes.imports. destruct (c_requirements (n_vk cur)) as [imps|e| |] eqn:Rq; simpl.
+    - now apply process_deps_incompat.
+    - intros H; inversion H; subst. exfalso. destruct Sane as [_ [_ [Sr _]]]. eapply Sr; eauto.
+    - discriminate.
+    - discriminate.
+  Qed.
+
+  Lemma bfs_incompat mgt : client_sane -> forall fuel first st st',
+      bfs fuel first mgt st = (st', Stop EIncompat) -> grows (s_reqs st) (s_reqs st').
+  Proof.
+    intros Sane. induction fuel as [|fuel IH]; intros first st st' H; simpl in H.
+    - destruct (s_todo st); discriminate.
+    - destruct (s_todo st) as [|cur rest]; [discriminate|].
+      destruct (step first mgt cur (set_todo st rest)) as [st1 f1] eqn:S. destruct f1.
+      + apply step_reqs in S. simpl in S. eapply grows_ext_l; eauto.
+      + inversion H; subst. apply step_incompat in S; auto.
+  Qed.
+
+  (* the retry loop: an incompatible pass strictly lengthens some requirement list *)
+  Lemma thm_pass_incompat_grows fuel root R0 R :
+    client_sane -> pass fuel root R0 = (R, Err EIncompat) -> grows R0 R.
+  Proof.
+    intros Sane. unfold MavenRes.pass.
+    destruct (negb (pk_sys (vk_pk root) =? system_Maven)); [discriminate|].
+    destruct (negb (vk_vt root =? vtype_Concrete)); [discriminate|].
+    destruct (c_version root) as [ver|e| |] eqn:Cv; try discriminate.
+    - destruct (v_registries ver); [discriminate|].
+      unfold dependency_management.
+      destruct (c_requirements (v_vk ver)) as [imps|e| |] eqn:Rq; simpl; try discriminate.
+      + destruct (bfs fuel true (mgt_of imps) (init_st root R0)) as [st f] eqn:B.
+        destruct f as [|e]; simpl; [discriminate|].
+        destruct (e =? EFuel) eqn:Ef; [discriminate|].
+        intros H; inversion H; subst. apply bfs_incompat in B; auto.
+      + intros H; inversion H; subst. exfalso. destruct Sane as [_ [_ [Sr _]]]. eapply Sr; eauto.
+    - intros H; inversion H; subst. exfalso. destruct Sane as [Sc _]. eapply Sc; eauto.
   Qed.
 
   (* the retry loop: a pass only appends to the requirement lists *)
